@@ -11,6 +11,7 @@ import CamVerif.Proofs.C17Struct
 import CamVerif.Proofs.C17Kinds2
 import CamVerif.Proofs.C17Resolve
 import CamVerif.Proofs.C17Fuel
+import CamVerif.Proofs.C17Document
 set_option linter.unusedSimpArgs false
 set_option linter.unusedSectionVars false
 namespace CamVerif.C17
@@ -551,6 +552,399 @@ theorem document_members (pr : Profile) (attrs : List (Str × Str)) (es : List E
   rw [document_top_level pr attrs es h,
     topLevelS_eq_topLevel pr es h (Elem.depthList es + 1) (Nat.lt_succ_self _) St.empty]
 
+/-! ## every declared node is retrievable by its name with its kind at the end of the document
+
+Debug assertions on (`pr.debugAsserts = true`, the profile of the test suite): a successful
+parse then means that no id was stored twice, i.e. all declared names (and the fresh names of
+the enumeration entries) were distinct.  `Good pr e`: parsing the element keeps what was stored
+before and only extends the interner — proved below for every rendered kind. -/
+
+/-- parsing this element keeps everything stored before and only extends the interner -/
+def Good (pr : Profile) (e : Elem) : Prop :=
+  ∀ (st : St F) ds st', parseElem pr e st = .ok (ds, st') → Keeps st st'
+
+theorem storeAllS_dev (pr : Profile) (hdev : pr.debugAsserts = true) (ds : List (NodeData F))
+    (st st' : St F) (h : storeAllS pr ds st = .ok st') :
+    Keeps st st' ∧ ∀ d ∈ ds, Stored st' d.attr.id d := by
+  induction ds generalizing st with
+  | nil =>
+    simp only [storeAllS, Res.ok.injEq] at h
+    subst h
+    exact ⟨Keeps.refl _, fun _ hd => by simp at hd⟩
+  | cons d ds ih =>
+    simp only [storeAllS] at h
+    cases hs : storeNodeS pr d.attr.id d st with
+    | ok s1 =>
+      rw [hs] at h
+      obtain ⟨k1, f1⟩ := storeNodeS_dev pr hdev _ _ _ _ hs
+      obtain ⟨k2, f2⟩ := ih s1 h
+      refine ⟨k1.trans k2, ?_⟩
+      intro x hx
+      rcases List.mem_cons.mp hx with rfl | hx
+      · exact k2.2 _ _ f1
+      · exact f2 x hx
+    | err e => rw [hs] at h; cases h
+    | panic => rw [hs] at h; cases h
+
+/-- the top-level loop only adds: everything stored before is found afterwards -/
+theorem topLevel_keeps (pr : Profile) (hdev : pr.debugAsserts = true) (es : List Elem)
+    (hgood : ∀ x ∈ es, Good (F := F) pr x) (st stF : St F) (h : topLevel pr es st = .ok stF) :
+    Keeps st stF := by
+  induction es generalizing st with
+  | nil =>
+    simp only [topLevel, Res.ok.injEq] at h
+    subst h; exact Keeps.refl _
+  | cons e es ih =>
+    simp only [topLevel] at h
+    cases hp : parseElem pr e st with
+    | ok r =>
+      rw [hp] at h
+      simp only [Res.bind_ok'] at h
+      cases hs : storeAllS pr r.1 r.2 with
+      | ok s1 =>
+        rw [hs] at h
+        simp only [Res.bind_ok'] at h
+        have k1 := hgood e (by simp) st r.1 r.2 hp
+        have k2 := (storeAllS_dev pr hdev _ _ _ hs).1
+        exact (k1.trans k2).trans (ih (fun x hx => hgood x (by simp [hx])) s1 h)
+      | err x => rw [hs] at h; cases h
+      | panic => rw [hs] at h; cases h
+    | err x => rw [hp] at h; cases h
+    | panic => rw [hp] at h; cases h
+
+/-- `document_retrievable`: in a successfully parsed document every node any declared element
+yields — wherever the element stands — is found under its id in the FINAL store, exactly as
+parsed. -/
+theorem document_retrievable (pr : Profile) (hdev : pr.debugAsserts = true) (a b : List Elem)
+    (e : Elem) (hgood : ∀ x ∈ a ++ e :: b, Good (F := F) pr x) (st stF : St F)
+    (h : topLevel pr (a ++ e :: b) st = .ok stF) :
+    ∃ st1 ds st2, topLevel pr a st = .ok st1 ∧ parseElem pr e st1 = .ok (ds, st2) ∧
+      Keeps st stF ∧ Keeps st2 stF ∧ ∀ d ∈ ds, Stored stF d.attr.id d := by
+  induction a generalizing st with
+  | nil =>
+    simp only [List.nil_append, topLevel] at h
+    cases hp : parseElem pr e st with
+    | ok r =>
+      rw [hp] at h
+      simp only [Res.bind_ok'] at h
+      cases hs : storeAllS pr r.1 r.2 with
+      | ok s1 =>
+        rw [hs] at h
+        simp only [Res.bind_ok'] at h
+        obtain ⟨k2, f2⟩ := storeAllS_dev pr hdev _ _ _ hs
+        have k3 := topLevel_keeps pr hdev b (fun x hx => hgood x (by simp [hx])) s1 stF h
+        have k1 := hgood e (by simp) st r.1 r.2 hp
+        exact ⟨st, r.1, r.2, rfl, by rw [hp], (k1.trans k2).trans k3, k2.trans k3,
+          fun d hd => k3.2 _ _ (f2 d hd)⟩
+      | err x => rw [hs] at h; cases h
+      | panic => rw [hs] at h; cases h
+    | err x => rw [hp] at h; cases h
+    | panic => rw [hp] at h; cases h
+  | cons x xs ih =>
+    simp only [List.cons_append, topLevel] at h
+    cases hp : parseElem pr x st with
+    | ok r =>
+      rw [hp] at h
+      simp only [Res.bind_ok'] at h
+      cases hs : storeAllS pr r.1 r.2 with
+      | ok s1 =>
+        rw [hs] at h
+        simp only [Res.bind_ok'] at h
+        obtain ⟨st1, ds, st2, h1, h2, h3, h4, h5⟩ :=
+          ih (fun y hy => hgood y (by simp [hy])) s1 h
+        have k1 := hgood x (by simp) st r.1 r.2 hp
+        have k2 := (storeAllS_dev pr hdev _ _ _ hs).1
+        refine ⟨st1, ds, st2, ?_, h2, (k1.trans k2).trans h3, h4, h5⟩
+        simp only [topLevel, hp, Res.bind_ok', hs, h1]
+      | err y => rw [hs] at h; cases h
+      | panic => rw [hs] at h; cases h
+    | err y => rw [hp] at h; cases h
+    | panic => rw [hp] at h; cases h
+
+theorem good_of_spec (pr : Profile) (e : Elem) (nodes : St F → List (NodeData F))
+    (s2 : St F → St F) (hp : ∀ st, parseElem pr e st = .ok (nodes st, s2 st))
+    (hg : ∀ st, Grows st (s2 st)) : Good (F := F) pr e := by
+  intro st ds st' h
+  rw [hp st] at h
+  simp only [Res.ok.injEq, Prod.mk.injEq] at h
+  obtain ⟨_, rfl⟩ := h
+  exact (hg st).keeps
+
+/-- a declaration that yields one node under the id of its `Name`: at the end of the document
+`id_by_name` of the declared name gives that id and `node_opt` of the id gives the parsed node -/
+theorem declared_found (pr : Profile) (hdev : pr.debugAsserts = true) (a b : List Elem) (e : Elem)
+    (name : Str) (d : St F → NodeData F) (s2 : St F → St F)
+    (hp : ∀ st, parseElem pr e st = .ok ([d st], s2 st))
+    (hid : ∀ st, (d st).attr.id = (internS name st).1)
+    (hg : ∀ st, Grows (internS name st).2 (s2 st))
+    (hgood : ∀ x ∈ a ++ e :: b, Good (F := F) pr x) (st stF : St F)
+    (h : topLevel pr (a ++ e :: b) st = .ok stF) :
+    ∃ st1, topLevel pr a st = .ok st1 ∧ findName name stF.names = some (d st1).attr.id ∧
+      Stored stF (d st1).attr.id (d st1) := by
+  obtain ⟨st1, ds, st2, h1, h2, _, h4, h5⟩ := document_retrievable pr hdev a b e hgood st stF h
+  rw [hp st1] at h2
+  simp only [Res.ok.injEq, Prod.mk.injEq] at h2
+  obtain ⟨rfl, rfl⟩ := h2
+  refine ⟨st1, h1, ?_, h5 _ (by simp)⟩
+  rw [hid st1]
+  exact idByName_of_le name st1 stF (St.le_trans (hg st1).1 h4.1)
+
+theorem good_Node (pr : Profile) (m : NodeM) : Good (F := F) pr m.render :=
+  good_of_spec pr _ _ _ (parse_render_Node pr m) fun st => (grows_specAttr m.attr (Grows.refl st)).trans (grows_specNode m st)
+
+theorem retrievable_Node (pr : Profile) (hdev : pr.debugAsserts = true) (a b : List Elem) (m : NodeM)
+    (hgood : ∀ x ∈ a ++ m.render :: b, Good (F := F) pr x) (st stF : St F)
+    (h : topLevel pr (a ++ m.render :: b) st = .ok stF) :
+    ∃ st1, topLevel pr a st = .ok st1 ∧
+      findName m.attr.name stF.names = some (specNode m st1).1.attr.id ∧
+      Stored stF (specNode m st1).1.attr.id (.node (specNode m st1).1) :=
+  declared_found pr hdev a b _ m.attr.name (fun st => .node (specNode m st).1) _ (parse_render_Node pr m)
+    (fun _ => rfl) (grows_specNode m) hgood st stF h
+
+theorem good_Category (pr : Profile) (m : CategoryM) : Good (F := F) pr m.render :=
+  good_of_spec pr _ _ _ (parse_render_Category pr m) fun st => (grows_specAttr m.attr (Grows.refl st)).trans (grows_specCategory m st)
+
+theorem retrievable_Category (pr : Profile) (hdev : pr.debugAsserts = true) (a b : List Elem) (m : CategoryM)
+    (hgood : ∀ x ∈ a ++ m.render :: b, Good (F := F) pr x) (st stF : St F)
+    (h : topLevel pr (a ++ m.render :: b) st = .ok stF) :
+    ∃ st1, topLevel pr a st = .ok st1 ∧
+      findName m.attr.name stF.names = some (specCategory m st1).1.attr.id ∧
+      Stored stF (specCategory m st1).1.attr.id (.category (specCategory m st1).1) :=
+  declared_found pr hdev a b _ m.attr.name (fun st => .category (specCategory m st).1) _ (parse_render_Category pr m)
+    (fun _ => rfl) (grows_specCategory m) hgood st stF h
+
+theorem good_Integer (pr : Profile) (m : IntegerM) : Good (F := F) pr m.render :=
+  good_of_spec pr _ _ _ (parse_render_Integer pr m) fun st => (grows_specAttr m.attr (Grows.refl st)).trans (grows_specInteger m st)
+
+theorem retrievable_Integer (pr : Profile) (hdev : pr.debugAsserts = true) (a b : List Elem) (m : IntegerM)
+    (hgood : ∀ x ∈ a ++ m.render :: b, Good (F := F) pr x) (st stF : St F)
+    (h : topLevel pr (a ++ m.render :: b) st = .ok stF) :
+    ∃ st1, topLevel pr a st = .ok st1 ∧
+      findName m.attr.name stF.names = some (specInteger m st1).1.attr.id ∧
+      Stored stF (specInteger m st1).1.attr.id (.integer (specInteger m st1).1) :=
+  declared_found pr hdev a b _ m.attr.name (fun st => .integer (specInteger m st).1) _ (parse_render_Integer pr m)
+    (fun _ => rfl) (grows_specInteger m) hgood st stF h
+
+theorem good_IntReg (pr : Profile) (m : IntRegM) : Good (F := F) pr m.render :=
+  good_of_spec pr _ _ _ (parse_render_IntReg pr m) fun st => (grows_specAttr m.attr (Grows.refl st)).trans (grows_specIntReg m st)
+
+theorem retrievable_IntReg (pr : Profile) (hdev : pr.debugAsserts = true) (a b : List Elem) (m : IntRegM)
+    (hgood : ∀ x ∈ a ++ m.render :: b, Good (F := F) pr x) (st stF : St F)
+    (h : topLevel pr (a ++ m.render :: b) st = .ok stF) :
+    ∃ st1, topLevel pr a st = .ok st1 ∧
+      findName m.attr.name stF.names = some (specIntReg m st1).1.attr.id ∧
+      Stored stF (specIntReg m st1).1.attr.id (.intReg (specIntReg m st1).1) :=
+  declared_found pr hdev a b _ m.attr.name (fun st => .intReg (specIntReg m st).1) _ (parse_render_IntReg pr m)
+    (fun _ => rfl) (grows_specIntReg m) hgood st stF h
+
+theorem good_Boolean (pr : Profile) (m : BooleanM) : Good (F := F) pr m.render :=
+  good_of_spec pr _ _ _ (parse_render_Boolean pr m) fun st => (grows_specAttr m.attr (Grows.refl st)).trans (grows_specBoolean m st)
+
+theorem retrievable_Boolean (pr : Profile) (hdev : pr.debugAsserts = true) (a b : List Elem) (m : BooleanM)
+    (hgood : ∀ x ∈ a ++ m.render :: b, Good (F := F) pr x) (st stF : St F)
+    (h : topLevel pr (a ++ m.render :: b) st = .ok stF) :
+    ∃ st1, topLevel pr a st = .ok st1 ∧
+      findName m.attr.name stF.names = some (specBoolean m st1).1.attr.id ∧
+      Stored stF (specBoolean m st1).1.attr.id (.boolean (specBoolean m st1).1) :=
+  declared_found pr hdev a b _ m.attr.name (fun st => .boolean (specBoolean m st).1) _ (parse_render_Boolean pr m)
+    (fun st => by simp only [NodeData.attr, specBoolean]; split <;> rfl) (grows_specBoolean m) hgood st stF h
+
+theorem good_Command (pr : Profile) (m : CommandM) : Good (F := F) pr m.render :=
+  good_of_spec pr _ _ _ (parse_render_Command pr m) fun st => (grows_specAttr m.attr (Grows.refl st)).trans (grows_specCommand m st)
+
+theorem retrievable_Command (pr : Profile) (hdev : pr.debugAsserts = true) (a b : List Elem) (m : CommandM)
+    (hgood : ∀ x ∈ a ++ m.render :: b, Good (F := F) pr x) (st stF : St F)
+    (h : topLevel pr (a ++ m.render :: b) st = .ok stF) :
+    ∃ st1, topLevel pr a st = .ok st1 ∧
+      findName m.attr.name stF.names = some (specCommand m st1).1.attr.id ∧
+      Stored stF (specCommand m st1).1.attr.id (.command (specCommand m st1).1) :=
+  declared_found pr hdev a b _ m.attr.name (fun st => .command (specCommand m st).1) _ (parse_render_Command pr m)
+    (fun _ => rfl) (grows_specCommand m) hgood st stF h
+
+theorem good_Float (pr : Profile) (m : FloatM F) : Good (F := F) pr m.render :=
+  good_of_spec pr _ _ _ (parse_render_Float pr m) fun st => (grows_specAttr m.attr (Grows.refl st)).trans (grows_specFloat m st)
+
+theorem retrievable_Float (pr : Profile) (hdev : pr.debugAsserts = true) (a b : List Elem) (m : FloatM F)
+    (hgood : ∀ x ∈ a ++ m.render :: b, Good (F := F) pr x) (st stF : St F)
+    (h : topLevel pr (a ++ m.render :: b) st = .ok stF) :
+    ∃ st1, topLevel pr a st = .ok st1 ∧
+      findName m.attr.name stF.names = some (specFloat m st1).1.attr.id ∧
+      Stored stF (specFloat m st1).1.attr.id (.float (specFloat m st1).1) :=
+  declared_found pr hdev a b _ m.attr.name (fun st => .float (specFloat m st).1) _ (parse_render_Float pr m)
+    (fun _ => rfl) (grows_specFloat m) hgood st stF h
+
+theorem good_FloatReg (pr : Profile) (m : FloatRegM) : Good (F := F) pr m.render :=
+  good_of_spec pr _ _ _ (parse_render_FloatReg pr m) fun st => (grows_specAttr m.attr (Grows.refl st)).trans (grows_specFloatReg m st)
+
+theorem retrievable_FloatReg (pr : Profile) (hdev : pr.debugAsserts = true) (a b : List Elem) (m : FloatRegM)
+    (hgood : ∀ x ∈ a ++ m.render :: b, Good (F := F) pr x) (st stF : St F)
+    (h : topLevel pr (a ++ m.render :: b) st = .ok stF) :
+    ∃ st1, topLevel pr a st = .ok st1 ∧
+      findName m.attr.name stF.names = some (specFloatReg m st1).1.attr.id ∧
+      Stored stF (specFloatReg m st1).1.attr.id (.floatReg (specFloatReg m st1).1) :=
+  declared_found pr hdev a b _ m.attr.name (fun st => .floatReg (specFloatReg m st).1) _ (parse_render_FloatReg pr m)
+    (fun _ => rfl) (grows_specFloatReg m) hgood st stF h
+
+theorem good_String (pr : Profile) (m : StringM) : Good (F := F) pr m.render :=
+  good_of_spec pr _ _ _ (parse_render_String pr m) fun st => (grows_specAttr m.attr (Grows.refl st)).trans (grows_specString m st)
+
+theorem retrievable_String (pr : Profile) (hdev : pr.debugAsserts = true) (a b : List Elem) (m : StringM)
+    (hgood : ∀ x ∈ a ++ m.render :: b, Good (F := F) pr x) (st stF : St F)
+    (h : topLevel pr (a ++ m.render :: b) st = .ok stF) :
+    ∃ st1, topLevel pr a st = .ok st1 ∧
+      findName m.attr.name stF.names = some (specString m st1).1.attr.id ∧
+      Stored stF (specString m st1).1.attr.id (.string (specString m st1).1) :=
+  declared_found pr hdev a b _ m.attr.name (fun st => .string (specString m st).1) _ (parse_render_String pr m)
+    (fun _ => rfl) (grows_specString m) hgood st stF h
+
+theorem good_StringReg (pr : Profile) (m : PlainRegM) : Good (F := F) pr (m.render cs!"StringReg") :=
+  good_of_spec pr _ _ _ (parse_render_StringReg pr m) fun st => (grows_specAttr m.attr (Grows.refl st)).trans (grows_specPlainReg m st)
+
+theorem retrievable_StringReg (pr : Profile) (hdev : pr.debugAsserts = true) (a b : List Elem) (m : PlainRegM)
+    (hgood : ∀ x ∈ a ++ (m.render cs!"StringReg") :: b, Good (F := F) pr x) (st stF : St F)
+    (h : topLevel pr (a ++ (m.render cs!"StringReg") :: b) st = .ok stF) :
+    ∃ st1, topLevel pr a st = .ok st1 ∧
+      findName m.attr.name stF.names = some (specPlainReg m st1).1.attr.id ∧
+      Stored stF (specPlainReg m st1).1.attr.id (.stringReg (specPlainReg m st1).1) :=
+  declared_found pr hdev a b _ m.attr.name (fun st => .stringReg (specPlainReg m st).1) _ (parse_render_StringReg pr m)
+    (fun _ => rfl) (grows_specPlainReg m) hgood st stF h
+
+theorem good_Register (pr : Profile) (m : PlainRegM) : Good (F := F) pr (m.render cs!"Register") :=
+  good_of_spec pr _ _ _ (parse_render_Register pr m) fun st => (grows_specAttr m.attr (Grows.refl st)).trans (grows_specPlainReg m st)
+
+theorem retrievable_Register (pr : Profile) (hdev : pr.debugAsserts = true) (a b : List Elem) (m : PlainRegM)
+    (hgood : ∀ x ∈ a ++ (m.render cs!"Register") :: b, Good (F := F) pr x) (st stF : St F)
+    (h : topLevel pr (a ++ (m.render cs!"Register") :: b) st = .ok stF) :
+    ∃ st1, topLevel pr a st = .ok st1 ∧
+      findName m.attr.name stF.names = some (specPlainReg m st1).1.attr.id ∧
+      Stored stF (specPlainReg m st1).1.attr.id (.register (specPlainReg m st1).1) :=
+  declared_found pr hdev a b _ m.attr.name (fun st => .register (specPlainReg m st).1) _ (parse_render_Register pr m)
+    (fun _ => rfl) (grows_specPlainReg m) hgood st stF h
+
+theorem good_Port (pr : Profile) (m : PortM) : Good (F := F) pr m.render :=
+  good_of_spec pr _ _ _ (parse_render_Port pr m) fun st => (grows_specAttr m.attr (Grows.refl st)).trans (grows_specPort m st)
+
+theorem retrievable_Port (pr : Profile) (hdev : pr.debugAsserts = true) (a b : List Elem) (m : PortM)
+    (hgood : ∀ x ∈ a ++ m.render :: b, Good (F := F) pr x) (st stF : St F)
+    (h : topLevel pr (a ++ m.render :: b) st = .ok stF) :
+    ∃ st1, topLevel pr a st = .ok st1 ∧
+      findName m.attr.name stF.names = some (specPort m st1).1.attr.id ∧
+      Stored stF (specPort m st1).1.attr.id (.port (specPort m st1).1) :=
+  declared_found pr hdev a b _ m.attr.name (fun st => .port (specPort m st).1) _ (parse_render_Port pr m)
+    (fun _ => rfl) (grows_specPort m) hgood st stF h
+
+theorem good_Converter (pr : Profile) (m : ConverterM F) : Good (F := F) pr m.render :=
+  good_of_spec pr _ _ _ (parse_render_Converter pr m) fun st => (grows_specAttr m.attr (Grows.refl st)).trans (grows_specConverter m st)
+
+theorem retrievable_Converter (pr : Profile) (hdev : pr.debugAsserts = true) (a b : List Elem) (m : ConverterM F)
+    (hgood : ∀ x ∈ a ++ m.render :: b, Good (F := F) pr x) (st stF : St F)
+    (h : topLevel pr (a ++ m.render :: b) st = .ok stF) :
+    ∃ st1, topLevel pr a st = .ok st1 ∧
+      findName m.attr.name stF.names = some (specConverter m st1).1.attr.id ∧
+      Stored stF (specConverter m st1).1.attr.id (.converter (specConverter m st1).1) :=
+  declared_found pr hdev a b _ m.attr.name (fun st => .converter (specConverter m st).1) _ (parse_render_Converter pr m)
+    (fun _ => rfl) (grows_specConverter m) hgood st stF h
+
+theorem good_IntConverter (pr : Profile) (m : IntConverterM F) : Good (F := F) pr m.render :=
+  good_of_spec pr _ _ _ (parse_render_IntConverter pr m) fun st => (grows_specAttr m.attr (Grows.refl st)).trans (grows_specIntConverter m st)
+
+theorem retrievable_IntConverter (pr : Profile) (hdev : pr.debugAsserts = true) (a b : List Elem) (m : IntConverterM F)
+    (hgood : ∀ x ∈ a ++ m.render :: b, Good (F := F) pr x) (st stF : St F)
+    (h : topLevel pr (a ++ m.render :: b) st = .ok stF) :
+    ∃ st1, topLevel pr a st = .ok st1 ∧
+      findName m.attr.name stF.names = some (specIntConverter m st1).1.attr.id ∧
+      Stored stF (specIntConverter m st1).1.attr.id (.intConverter (specIntConverter m st1).1) :=
+  declared_found pr hdev a b _ m.attr.name (fun st => .intConverter (specIntConverter m st).1) _ (parse_render_IntConverter pr m)
+    (fun _ => rfl) (grows_specIntConverter m) hgood st stF h
+
+theorem good_SwissKnife (pr : Profile) (m : SwissKnifeM F) : Good (F := F) pr m.render :=
+  good_of_spec pr _ _ _ (parse_render_SwissKnife pr m) fun st => (grows_specAttr m.attr (Grows.refl st)).trans (grows_specSwissKnife m st)
+
+theorem retrievable_SwissKnife (pr : Profile) (hdev : pr.debugAsserts = true) (a b : List Elem) (m : SwissKnifeM F)
+    (hgood : ∀ x ∈ a ++ m.render :: b, Good (F := F) pr x) (st stF : St F)
+    (h : topLevel pr (a ++ m.render :: b) st = .ok stF) :
+    ∃ st1, topLevel pr a st = .ok st1 ∧
+      findName m.attr.name stF.names = some (specSwissKnife m st1).1.attr.id ∧
+      Stored stF (specSwissKnife m st1).1.attr.id (.swissKnife (specSwissKnife m st1).1) :=
+  declared_found pr hdev a b _ m.attr.name (fun st => .swissKnife (specSwissKnife m st).1) _ (parse_render_SwissKnife pr m)
+    (fun _ => rfl) (grows_specSwissKnife m) hgood st stF h
+
+theorem good_IntSwissKnife (pr : Profile) (m : IntSwissKnifeM F) : Good (F := F) pr m.render :=
+  good_of_spec pr _ _ _ (parse_render_IntSwissKnife pr m) fun st => (grows_specAttr m.attr (Grows.refl st)).trans (grows_specIntSwissKnife m st)
+
+theorem retrievable_IntSwissKnife (pr : Profile) (hdev : pr.debugAsserts = true) (a b : List Elem) (m : IntSwissKnifeM F)
+    (hgood : ∀ x ∈ a ++ m.render :: b, Good (F := F) pr x) (st stF : St F)
+    (h : topLevel pr (a ++ m.render :: b) st = .ok stF) :
+    ∃ st1, topLevel pr a st = .ok st1 ∧
+      findName m.attr.name stF.names = some (specIntSwissKnife m st1).1.attr.id ∧
+      Stored stF (specIntSwissKnife m st1).1.attr.id (.intSwissKnife (specIntSwissKnife m st1).1) :=
+  declared_found pr hdev a b _ m.attr.name (fun st => .intSwissKnife (specIntSwissKnife m st).1) _ (parse_render_IntSwissKnife pr m)
+    (fun _ => rfl) (grows_specIntSwissKnife m) hgood st stF h
+
+theorem good_MaskedIntReg (pr : Profile) (m : MaskedM) : Good (F := F) pr m.render :=
+  good_of_spec pr _ _ _ (parse_render_MaskedIntReg pr m) fun st =>
+    (grows_specAttr m.attr (Grows.refl st)).trans (grows_specMasked m st)
+
+theorem good_StructReg (pr : Profile) (s : StructM) : Good (F := F) pr s.render :=
+  good_of_spec pr _ _ _ (parse_render_StructReg pr s) fun st => grows_specStruct s st
+
+/-- every `StructReg` entry is retrievable by its name as a `MaskedIntReg` at the end of the
+document -/
+theorem retrievable_StructReg_entries (pr : Profile) (hdev : pr.debugAsserts = true)
+    (a b : List Elem) (s : StructM) (hgood : ∀ x ∈ a ++ s.render :: b, Good (F := F) pr x)
+    (st stF : St F) (h : topLevel pr (a ++ s.render :: b) st = .ok stF) :
+    ∃ st1, topLevel pr a st = .ok st1 ∧
+      ∀ n ∈ (specStruct s st1).1, Stored stF n.attr.id (.maskedIntReg n) ∧
+        ∃ e ∈ s.entries, findName e.attr.name stF.names = some n.attr.id := by
+  obtain ⟨st1, ds, st2, h1, h2, _, h4, h5⟩ :=
+    document_retrievable pr hdev a b s.render hgood st stF h
+  rw [parse_render_StructReg pr s st1] at h2
+  simp only [Res.ok.injEq, Prod.mk.injEq] at h2
+  obtain ⟨rfl, rfl⟩ := h2
+  refine ⟨st1, h1, fun n hn => ⟨h5 (.maskedIntReg n) (List.mem_map.mpr ⟨n, hn, rfl⟩), ?_⟩⟩
+  obtain ⟨e, he, si, _, g2, g3⟩ := specStruct_names s st1 n hn
+  refine ⟨e, he, ?_⟩
+  rw [g2]
+  exact idByName_of_le e.attr.name si stF (St.le_trans g3.1 h4.1)
+
+theorem good_Enumeration (pr : Profile) (hdev : pr.debugAsserts = true) (m : EnumerationM F) :
+    Good (F := F) pr m.render := by
+  intro st ds st' h
+  rw [parse_render_Enumeration pr m st] at h
+  cases hs : specEnumeration pr m st with
+  | ok r =>
+    rw [hs] at h
+    simp only [Res.bind_ok', Res.ok.injEq, Prod.mk.injEq] at h
+    obtain ⟨_, rfl⟩ := h
+    obtain ⟨_, k, _⟩ := specEnumeration_dev pr hdev m st r.1 r.2 (by rw [hs])
+    exact (grows_internS _ (Grows.refl st)).keeps.trans k
+  | err x => rw [hs] at h; cases h
+  | panic => rw [hs] at h; cases h
+
+/-- an `Enumeration` is retrievable by its name, and through it every `EnumEntry`: the ids it
+lists hold, position by position, `EnumEntry` nodes with the declared symbolic names and values
+in the final store -/
+theorem retrievable_Enumeration (pr : Profile) (hdev : pr.debugAsserts = true) (a b : List Elem)
+    (m : EnumerationM F) (hgood : ∀ x ∈ a ++ m.render :: b, Good (F := F) pr x) (st stF : St F)
+    (h : topLevel pr (a ++ m.render :: b) st = .ok stF) :
+    ∃ st1 n, topLevel pr a st = .ok st1 ∧
+      findName m.attr.name stF.names = some n.attr.id ∧
+      Stored stF n.attr.id (.enumeration n) ∧ EntriesStored stF m.entries n.entries := by
+  obtain ⟨st1, ds, st2, h1, h2, _, h4, h5⟩ :=
+    document_retrievable pr hdev a b m.render hgood st stF h
+  rw [parse_render_Enumeration pr m st1] at h2
+  cases hs : specEnumeration pr m st1 with
+  | ok r =>
+    rw [hs] at h2
+    simp only [Res.bind_ok', Res.ok.injEq, Prod.mk.injEq] at h2
+    obtain ⟨rfl, rfl⟩ := h2
+    obtain ⟨e1, k, e3⟩ := specEnumeration_dev pr hdev m st1 r.1 r.2 (by rw [hs])
+    refine ⟨st1, r.1, h1, ?_, h5 (.enumeration r.1) (by simp), EntriesStored.keeps h4 _ _ e3⟩
+    rw [e1]
+    exact idByName_of_le m.attr.name st1 stF (St.le_trans k.1 h4.1)
+  | err x => rw [hs] at h2; cases h2
+  | panic => rw [hs] at h2; cases h2
+
 /-! ## literals -/
 
 /-- whatever `convert_to_int` accepts is taken as an immediate by the `ImmOrPNode` sniffing -/
@@ -586,6 +980,19 @@ theorem literals_hex_small (upperPrefix upperDigits : Bool) (n : Nat) (h : (n : 
   have hu : n ≤ U64_MAX := by simp only [I64_MAX, U64_MAX] at *; omega
   rw [literals_hex upperPrefix upperDigits n hu]
   simp [wrapI64, h]
+
+/-- … with any number of leading zeros (`0x00000000000000FF`) -/
+theorem literals_hex_leading_zeros (upperPrefix upperDigits : Bool) (k n : Nat) (h : n ≤ U64_MAX) :
+    convertToInt ('0' :: (if upperPrefix then 'X' else 'x') ::
+      (List.replicate k '0' ++ natDigits 16 upperDigits n)) = .ok (wrapI64 n) := by
+  cases upperPrefix <;> simp [convertToInt, hexToI64_zeros upperDigits k n h]
+
+/-- explicit `+` sign on decimal integers -/
+theorem literals_plus_dec (n : Nat) (h : (n : Int) ≤ I64_MAX) :
+    convertToInt ('+' :: natDigits 10 false n) = .ok (n : Int) := convertToInt_plus n h
+
+theorem literals_uint_plus_dec (n : Nat) (h : n ≤ U64_MAX) :
+    convertToUint ('+' :: natDigits 10 false n) = .ok n := convertToUint_plus n h
 
 /-- unsigned fields (`PollingTime`, `Bit`, `LSB`, `MSB`, version numbers): decimal form -/
 theorem literals_uint_dec (n : Nat) (h : n ≤ U64_MAX) :
@@ -717,6 +1124,14 @@ example : ∃ nodes stS, parseElem (F := Unit) Profile.dev exStruct.render St.em
 /-- `refs_resolve`: the hypothesis holds for the final state itself and any extension of it -/
 example (m : MaskedM) : (specMasked (F := Unit) m St.empty).2.le (specMasked m St.empty).2 :=
   St.le_refl _
+
+/-- `retrievable_*`: the side condition holds for a document of rendered declarations -/
+example : ∀ x ∈ [exInteger.render, exStruct.render], Good (F := Unit) Profile.dev x := by
+  intro x hx
+  simp only [List.mem_cons, List.not_mem_nil, or_false] at hx
+  rcases hx with rfl | rfl
+  · exact good_Integer _ _
+  · exact good_StructReg _ _
 
 /-- `group_flat`: members are element nodes -/
 example : AllElems [exInteger.render, exStruct.render] := by simp [AllElems, IntegerM.render, StructM.render]
